@@ -43,6 +43,30 @@ STRENGTHENED = {
     "C16-3": "np.isclose modelled as the inequality NumPy evaluates instead of exact equality",
     "C17-3": "found by the existing positive-gradient item, which ran into the item time-out under the change: time-outs raised",
     "C18-3": "rank-0 array values (mutable scalars) as a fifth shape class",
+    # ---- round 3
+    "C01-6": "C01 runs one back-propagation per response; the stale per-mode solver is caught by the sparse EigenSolve template of C03",
+    "C03-5": "C03 uses a contract oracle as inner solver; the same change is caught by C05 (Cholesky success/failure histories)",
+    "C06-5": "complex matrices without symmetry and with decoupled dofs whose diagonal entry is complex (single T / H solves: longer "
+             "histories of this class do not finish)",
+    "C07-5": "C07 builds one module per item; caught by C06 (update() with a changed sparsity pattern)",
+    "C07-6": "complex matrix with real applied loads, NumPy's real/complex assignment rule modelled (logical dtypes); patch re-based "
+             "onto the D29 fix",
+    "C08-6": "C08 assembles once per module; caught by the new real-then-complex template of C03 (logical dtypes)",
+    "C09-6": "set_filter_radius() on an existing filter (this also exposed the genuine defect D30)",
+    "C10-5": "design signals with a pre-allocated sensitivity buffer",
+    "C10-6": "a callback that installs another design (new state object)",
+    "C11-6": "complex Hermitian sparse pencils in CSC and CSR storage; behavioural replay on a complex Hermitian 8x8 pencil",
+    "C12-6": "free out-of-plane thickness for the average / strain items (the thickness items had exposed D27 before)",
+    "C13-6": "same change as C20-1; C13 does not write files, caught by C20 (domain compared before/after writing)",
+    "C14-6": "C14 evaluates each filter once; caught by the overhang template of C03 (two cycles)",
+    "C16-5": "found by z3 at once (ties at the cut) but the replay accepted any tie-break without counting: count clause added",
+    "C16-6": "seed / sensitivity() / reset() between the damped responses",
+    "C17-5": "a 2-D variable array (offsets must count entries, not rows)",
+    "C18-6": "reversed basic slices (negative step) with nesting",
+    "C19-6": "zero entries with relative_dx and keep_zero_structure=False; a division by an exact zero in the symbolic run is replayed "
+             "as 'non-finite reported value'",
+    "C20-5": "transposed (not C-contiguous) array signals, every column compared with the entry its header names; the nditer stand-in "
+             "follows memory order",
 }
 NOT_CAUGHT = {
     "C10-3": "outside the claim: the fault needs integer-typed design vectors (np.concatenate keeps int64, np.zeros_like then truncates "
@@ -52,6 +76,20 @@ NOT_CAUGHT = {
     "C17-4": "outside the claim: needs two chained outer iterations of minimize_oc (bisection bracket carried over); one outer iteration "
              "from an arbitrary design is the bound, and the 'volume equals maxvol' clause is listed as not decided",
     "C18-4": "outside the claim: needs inf/nan entries in a sensitivity (x *= 0 keeps nan); non-finite values are not modelled",
+    "C01-5": "not confirmed: z3 finds the dropped dyads (norm < 1e-12), but at that magnitude the finite-difference replay cannot tell "
+             "0 from 6e-12 and the run ends inconclusive (494 sat answers, none reproduced); C15 does not finish under this change",
+    "C02-6": "reported as ENCODING-MISMATCH (exit 2, harness error), not as VIOLATION: the symbolic run passes, the concretised twin on "
+             "the real library disagrees because the fault lives in state kept between two runs in one process",
+    "C03-6": "outside the claim: needs a nan/inf sensitivity entry",
+    "C05-6": "outside the claim: accuracy of SuperLU without pivoting (the factorisation is a stub; only the class/flag admissibility of "
+             "auto_determine_solver is decided, and the new option is unknown to that predicate)",
+    "C06-6": "not caught: needs LinSolve with the default LDAWrapper on a complex Hermitian matrix with the hermitian flag given; "
+             "complex LDAWrapper runs do not finish in the quick budget (thorough items exist, often inconclusive)",
+    "C13-5": "outside the claim: needs integer-typed element sizes (dtype of the work array)",
+    "C15-6": "not decided: under this change (zero test through u.u instead of the norm) the C15 run did not finish within 25 minutes",
+    "C17-6": "outside the claim: stopping rule / convergence of the outer iteration",
+    "C18-5": "outside the claim: mixing real and complex values inside one signal (listed in OUTSIDE of C18)",
+    "C20-6": "outside the claim: needs an array of more than 262144 values (bound: meshes up to 15 elements per axis)",
     "C12-4": "C12 itself uses one construction per item; the same change is caught by C08 (repeated constructions)",
     "C03-4": "C03 does not run CG (contract oracle as inner solver); the same change is caught by C05 (CG stopping rule)",
 }
